@@ -282,6 +282,7 @@ pub fn gen_case(prop: &str, thorough: bool, weak: bool, rng: &mut Rng) -> Case {
             }
         }
         "C11" if rng.below(3) == 0 => return gen_c11_readonly(rng, cfg, thorough),
+        "C13" if rng.below(3) == 0 => return gen_c13_nested_wrap(rng, cfg, thorough),
         "C07" | "C01" | "C03" if rng.below(4) == 0 => return gen_aba_storm(rng, cfg, thorough),
         "C16" => return crate::extras::gen_c16(rng, cfg, thorough),
         "C17" => return crate::extras::gen_c17(rng, cfg, thorough),
@@ -459,6 +460,69 @@ fn gen_aba_storm(rng: &mut Rng, mut cfg: RunCfg, thorough: bool) -> Case {
     cfg.p_reuse = 240;
     cfg.p_fast_slot_refused = 0;
     cfg.p_switch_after_mark = choose(rng, &[64, 160, 220]);
+    Case {
+        cfg,
+        prog: Program {
+            conts,
+            threads,
+            final_order: rng.below(4) as u8,
+        },
+    }
+}
+
+/// C13 (nested wrap): fallback-only containers; a writer whose generation counter is preset so
+/// that its *next* fallback load wraps performs stores while readers sit in their read-intent
+/// window (so the writer helps them, and the helping load is the one that wraps), and further
+/// threads start at that moment (they claim the node the writer has just retired).
+fn gen_c13_nested_wrap(rng: &mut Rng, mut cfg: RunCfg, thorough: bool) -> Case {
+    let kind = choose(rng, &[CKind::AF, CKind::OF]);
+    let conts = vec![ContSpec { kind, init: Init::New }];
+    let mut threads = vec![ThreadProg::default()];
+    let n_readers = 1 + rng.below(2) as usize;
+    for _ in 0..n_readers {
+        let mut ops = Vec::new();
+        for i in 0..(2 + rng.below(3)) {
+            ops.push(if rng.below(4) == 0 {
+                Op::Load { c: 0, g: (i % 4) as u8 }
+            } else {
+                Op::LoadDrop { c: 0 }
+            });
+        }
+        threads.push(ThreadProg { ops, top: true });
+    }
+    // the wrapping writer
+    let mut w = Vec::new();
+    if rng.below(2) == 0 {
+        w.push(Op::LoadDrop { c: 0 });
+    }
+    w.push(Op::SetGen { off: 1 });
+    for _ in 0..(1 + rng.below(if thorough { 4 } else { 3 })) {
+        w.push(match rng.below(4) {
+            0 => Op::Swap { c: 0, v: V::New, h: 0 },
+            1 => Op::Rcu {
+                c: 0,
+                r: RcuSpec::default(),
+                h: 1,
+            },
+            _ => Op::Store { c: 0, v: V::New },
+        });
+    }
+    w.push(Op::LoadDrop { c: 0 });
+    threads.push(ThreadProg { ops: w, top: true });
+    // late starters: claim whatever node is free, write and read
+    for _ in 0..(1 + rng.below(2)) {
+        let mut ops = Vec::new();
+        for _ in 0..(1 + rng.below(3)) {
+            ops.push(if rng.below(2) == 0 {
+                Op::Store { c: 0, v: V::New }
+            } else {
+                Op::LoadDrop { c: 0 }
+            });
+        }
+        threads.push(ThreadProg { ops, top: true });
+    }
+    cfg.p_switch_after_mark = choose(rng, &[64, 160, 220]);
+    cfg.p_fast_slot_refused = 0;
     Case {
         cfg,
         prog: Program {
